@@ -33,9 +33,12 @@ func init() {
 			"with the previous call's measurement and with a value scribbled into a policy the library returned earlier; returned policies are re-judged after all later calls; failing calls in between. " +
 			"cmix = different endorsements / requests / entry points in flight together. combo = digest x count x measurement, base policy x overwrite x endorsement source x test-only switch x cancelled context, " +
 			"requests congruent to a listed count mod 2^8 / 2^16 / 2^31, keys 0 and 2^32-1, tables of 20-60 entries, TDX rows with a non-48-byte MRTD. getter = endorsement fetched through the caller's getter that fails, " +
-			"hands out another object / garbage / its previous answer, and is retried (also with another count)",
+			"hands out another object / garbage / its previous answer, and is retried (also with another count). " +
+			"src = several sources of the endorsement present in one call and disagreeing (explicit option x certificate-table entry / closure argument x getter; an explicit one decides, otherwise any available source may), " +
+			"probed with values only the losing source lists; validator built from Options that already carry a measurement (checked with verify.Endorsement on the same Options first, the caller's kept buffer, empty): the REPORT's measurement must be listed",
 		Assumptions: []string{"endorsements are genuinely signed so that only the measurement clause decides", "SVSM measurement counts as listed for requests 0 and 1 (README: with an SVSM the VMSA count is 1)",
 			"verify.SNP / EndorsementProto take a measurement option rather than a report, so only membership (not the 48-byte length) is required of them",
+			"when a call has an explicitly supplied endorsement (SevValidateOptions.Endorsement / verify.Options.Endorsement) and another one attached to the attestation or passed as argument, 'that endorsement' is the explicit one (CLI: --endorsement 'Overrides what could be extracted from the attestation'; Options.Endorsement: 'If endorsement is provided outside of the auxblob, use it'); without an explicit one any available source may justify an acceptance",
 			"when the endorsement is fetched through the caller's getter, 'that endorsement' is what the getter handed out during the call; if it handed out nothing usable an acceptance is judged against every endorsement of the session",
 			"an endorsed TDX row with a zero-length MRTD (never produced by the signer) turns the derived allow-list into a wildcard; observed and counted, judging gated by judgeEmptyMrtdRows"},
 		ShardsQuick: 8, ShardsThor: 16, TimeoutS: 600, TimeoutThor: 3000, Run: run,
